@@ -1,5 +1,5 @@
 (* C12 -- EEPROM reads return exactly the stored bytes and parse to what they encode. *)
-From EC Require Import Base.Prelude Base.Bytes Wire.Layout Gen.SrcLayouts Sii.Range Sii.RangeProofs Sii.Parse Sii.ParseProofs.
+From EC Require Import Base.Prelude Base.Bytes Wire.Layout Gen.SrcLayouts Sii.Range Sii.RangeProofs Sii.Parse Sii.ParseProofs Sii.Encode.
 Local Open Scope N_scope.
 
 (* Reading n bytes at word w the way eeprom_read_raw / eeprom_read do (start_at(w, n) then read /
@@ -54,3 +54,41 @@ Theorem c12_items : forall p size parse cap item, prov_ok p -> (0 < size)%nat ->
   collect fuel p r size parse cap item n acc = Ok ((n + k)%nat, acc ++ concat vs).
 Proof. exact collect_spec. Qed.
 Print Assumptions c12_items.
+
+(* "... equal what its well-formed EEPROM encodes": the encodings of the fixed-layout items
+   (ETG.2010) and their round trips through the decoders of the model, for every field value *)
+Theorem c12_sync_manager_roundtrip : forall v, sm_wf v ->
+  parse_sm (sm_encode v) =
+  Ok (map Z.of_N [v_start v; v_len v; v_om v; v_dir v; N.b2n (v_b4 v); N.b2n (v_b5 v); N.b2n (v_b6 v); v_en v; v_ut v; sm_derived v]).
+Proof. exact sm_roundtrip. Qed.
+Print Assumptions c12_sync_manager_roundtrip.
+
+Theorem c12_identity_roundtrip : forall vendor product revision serial,
+  vendor < 4294967296 -> product < 4294967296 -> revision < 4294967296 -> serial < 4294967296 ->
+  let b := identity_bytes vendor product revision serial in
+  [le32 b; le32 (skipn 4 b); le32 (skipn 8 b); le32 (skipn 12 b)] = [vendor; product; revision; serial].
+Proof. exact identity_roundtrip. Qed.
+Print Assumptions c12_identity_roundtrip.
+
+Theorem c12_mailbox_roundtrip : forall rx_off rx_size tx_off tx_size protocols,
+  rx_off < 65536 -> rx_size < 65536 -> tx_off < 65536 -> tx_size < 65536 -> protocols < 64 ->
+  let b := mailbox_bytes rx_off rx_size tx_off tx_size protocols in
+  [le16 b; le16 (skipn 2 b); le16 (skipn 4 b); le16 (skipn 6 b)] = [rx_off; rx_size; tx_off; tx_size] /\
+  bits_val 63 (nth 8 b 0) = Ok protocols.
+Proof. exact mailbox_roundtrip. Qed.
+Print Assumptions c12_mailbox_roundtrip.
+
+Theorem c12_size_roundtrip : forall kbit, 1 <= kbit -> kbit <= 65536 ->
+  (le16 (le_bytes 2 (kbit - 1)) + 1) * 128 = kbit * 128.
+Proof. exact size_roundtrip. Qed.
+Print Assumptions c12_size_roundtrip.
+
+Theorem c12_fmmu_usage_roundtrip : forall u, u <= 3 -> enum_val enum_FmmuUsage u = Ok u.
+Proof. exact fmmu_usage_roundtrip. Qed.
+Print Assumptions c12_fmmu_usage_roundtrip.
+
+Theorem c12_pdo_header_roundtrip : forall index n_entries sm sync name_idx flags, index < 65536 ->
+  let b := pdo_header_bytes index n_entries sm sync name_idx flags in
+  le16 b = index /\ nth 2 b 0 = n_entries /\ nth 3 b 0 = sm /\ length b = 8%nat.
+Proof. exact pdo_header_roundtrip. Qed.
+Print Assumptions c12_pdo_header_roundtrip.
